@@ -14,8 +14,23 @@ import xv
 from xv import TieBroken, log
 
 ALLOWED_AXIOMS = set()      # every property theorem is closed under the global context
-FORBIDDEN = re.compile(r'\b(Admitted|admit|Axiom|Axioms|Parameter|Parameters|Conjecture|Hypothesis|'
-                       r'Unset\s+Guard|bypass_check|type-in-type|impredicative-set|Admit\s+Obligations)\b')
+FORBIDDEN = re.compile(r'\b(Admitted|admit|Axiom|Axioms|Parameter|Parameters|Conjecture|Conjectures|'
+                       r'Unset\s+Guard|bypass_check|type-in-type|impredicative-set|Admit\s+Obligations|'
+                       r'Unset\s+Positivity|Unset\s+Universe)\b')
+SECTION_ONLY = re.compile(r'^\s*(Hypothesis|Hypotheses|Variable|Variables|Context)\b')
+
+
+def outside_section_decls(txt):
+    """Variable/Hypothesis declarations are axioms only outside a Section"""
+    depth, hits = 0, []
+    for line in txt.split("\n"):
+        if re.match(r"^\s*(Section|Module)\s+[\w']+\s*\.", line):
+            depth += 1
+        elif re.match(r"^\s*End\s+[\w']+\s*\.", line):
+            depth = max(0, depth - 1)
+        elif depth == 0 and SECTION_ONLY.match(line):
+            hits.append(line.strip()[:60])
+    return hits
 
 
 class Run:
@@ -114,6 +129,8 @@ class Run:
                     txt = re.sub(r'\(\*.*?\*\)', '', txt, flags=re.S)
                     for m in FORBIDDEN.finditer(txt):
                         hits.append("%s: %s" % (f, m.group(0)))
+                    for h in outside_section_decls(txt):
+                        hits.append("%s: %s (outside a section)" % (f, h))
         self.oblige("no Admitted/Axiom/Parameter/guard switches in the development", not hits, "; ".join(hits[:10]))
         self.oblige("full .vo build of the development", built, self.cov.get("coq_build_failure", ""))
 
@@ -814,8 +831,489 @@ def k3a(run, C):
 
 
 # =======================================================================================
+# C11 - C15, C07: the generator
 
-CHECKS = {"C01": check_c01, "C02": check_c02, "C03": check_c03, "C04": check_c04, "C05": check_c05,
+import specgen  # noqa: E402
+
+
+def front_specs(run, n_random, rich=False, max_decls=8):
+    out = []
+    for i in range(n_random):
+        r = random.Random(run.seed * 104729 + i)
+        decls = specgen.random_spec(r, max_decls)
+        out.append(decls)
+    return out
+
+
+def items_of(o, key="default"):
+    g = o["gen_" + key]
+    if g["outcome"] != "ok":
+        return None
+    items, closing = xv.split_items(g["body"], xv.DERIVE_DEFAULT if key == "default" else xv.DERIVE_CLONE)
+    return sorted(items)
+
+
+def k_front(run, obs, tag, want_k2=True):
+    try:
+        n1, d1 = xv.k1(obs, tag)
+        detail = ""
+        if d1:
+            detail = "code %d on: %s" % (d1[0][1], obs[d1[0][0]]["text"][:400])
+        run.oblige("K1: model front end (Peg+Grammar, Walk, indexes) = real pest/Ast::new on %d texts" % n1, not d1, detail)
+        run.cov["k1_cases"] = n1
+        if want_k2:
+            n2, d2, bad = xv.k2(obs, tag)
+            detail = ""
+            if d2:
+                detail = "code %d on: %s" % (d2[0][2], obs[d2[0][0]]["text"][:400])
+            run.oblige("K2: Render(Gen(real AST)) = real generate() text on %d (AST, derive) pairs" % n2, not d2 and not bad, detail)
+            run.cov["k2_cases"] = n2
+        return d1
+    except TieBroken as e:
+        run.oblige("front-end correspondence runs", False, str(e))
+        return []
+
+
+SCAN_FORBIDDEN = [r'\bSystemTime\b', r'\bInstant\b', r'std::time', r'\bthread\b', r'\brand\b', r'RandomState',
+                  r'std::env', r'\bgetrandom\b', r'thread_local', r'static\s+mut', r'\bMutex\b', r'\bAtomic']
+
+
+def source_scan(run):
+    """nothing reachable from generate() may depend on a clock, the environment, threads or a
+    random source; hash-ordered containers may only be consulted through membership"""
+    hits = []
+    hash_users = []
+    for f in xv.src_files():
+        if not f.endswith(".rs") or f.endswith("main.rs") or f.endswith("header.rs"):
+            continue
+        txt = open(f).read()
+        code = txt.split("#[cfg(test)]")[0]
+        code = "\n".join(l for l in code.split("\n") if not l.lstrip().startswith("//"))
+        for pat in SCAN_FORBIDDEN:
+            if re.search(pat, code):
+                hits.append("%s: %s" % (os.path.basename(f), pat))
+        if re.search(r'\bHash(Set|Map)\b', code):
+            hash_users.append(os.path.basename(f))
+            # every use of the set must be contains / insert / len / new
+            for m in re.finditer(r'\bindex\.(\w+)\(', code):
+                if m.group(1) not in ("contains", "insert", "len"):
+                    hits.append("%s: HashSet consulted through .%s()" % (os.path.basename(f), m.group(1)))
+            for m in re.finditer(r'\bself\.0\.(\w+)\(', code):
+                if m.group(1) not in ("contains",):
+                    hits.append("%s: HashSet consulted through .%s()" % (os.path.basename(f), m.group(1)))
+    for f in xv.src_files():
+        if f.endswith(".rs") and not f.endswith("header.rs"):
+            code = open(f).read().split("#[cfg(test)]")[0]
+            for m in re.finditer(r'generics\(\)\s*\.\s*(\w+)', code):
+                if m.group(1) not in ("contains",):
+                    hits.append("%s: generics() consulted through .%s" % (os.path.basename(f), m.group(1)))
+    run.cov["hash_container_files"] = hash_users
+    run.oblige("source scan: no clock/env/thread/random source reachable from generate(); hash sets only via contains/insert/len",
+               not hits and set(hash_users) <= {"generic_types.rs"}, "; ".join(hits[:8]) + " hash users: %s" % hash_users)
+
+
+def build_cli(run):
+    r = xv.sh(["cargo", "build", "--offline", "-q", "--bin", "fastxdr", "--manifest-path", os.path.join(xv.REPO, "Cargo.toml")],
+              env=xv.CARGO_ENV, timeout=1200)
+    if r.returncode != 0:
+        raise TieBroken("the fastxdr binary does not build: " + r.stdout[-2000:])
+    return os.path.join(xv.TARGET, "debug", "fastxdr")
+
+
+def check_c11(run):
+    run.theorem_step(["C11"])
+    source_scan(run)
+    nrand = 40 if run.tier == "quick" else 300
+    decl_lists = front_specs(run, nrand)
+    texts, meta = [], []
+    for di, decls in enumerate(decl_lists):
+        base = specgen.print_spec(decls)
+        texts.append(base)
+        meta.append((di, "base"))
+        for v in range(2 if run.tier == "quick" else 5):
+            texts.append(specgen.print_spec(decls, random.Random(run.seed + di * 31 + v), rich=True))
+            meta.append((di, "layout"))
+        for v in range(2 if run.tier == "quick" else 5):
+            perm = list(decls)
+            random.Random(run.seed + di * 17 + v).shuffle(perm)
+            if v == 0:
+                perm = list(reversed(decls))
+            texts.append(specgen.print_spec(perm))
+            meta.append((di, "perm"))
+    for s in xv.harvest_specs():
+        texts.append(s)
+        meta.append((-1, "harvest"))
+    try:
+        obs = xv.run_front(texts, "c11")
+    except TieBroken as e:
+        run.oblige("front harness runs", False, str(e))
+        return
+    k_front(run, obs, "c11")
+    base_items = {}
+    for o, (di, kind) in zip(obs, meta):
+        run.case((di, kind, o["text"]), {"kind": kind, "text": o["text"][:120]} if kind != "harvest" else None)
+        run.count("variants_" + kind)
+        g = o["gen_default"]
+        if g["outcome"] == "ok" and not g.get("repeat_same", True):
+            run.violation("two calls of generate() on one Generator with the same text differ", {"spec": o["text"]})
+        if not o.get("shared_same", True):
+            run.violation("a Generator that has been used for other specifications produces a different output", {"spec": o["text"]})
+        if kind == "base":
+            base_items[di] = (items_of(o), o)
+        elif kind in ("layout", "perm"):
+            b, bo = base_items[di]
+            it = items_of(o)
+            if it != b:
+                run.violation("%s changes the generated items" % ("inserting whitespace/comments between tokens" if kind == "layout" else "reordering top-level declarations"),
+                              {"spec_a": bo["text"], "spec_b": o["text"],
+                               "outcome_a": bo["gen_default"]["outcome"], "outcome_b": o["gen_default"]["outcome"]})
+    # fresh processes (fresh hash seeds): the CLI binary, byte-identical output every time
+    try:
+        exe = build_cli(run)
+    except TieBroken as e:
+        run.oblige("CLI builds", False, str(e))
+        return
+    d = os.path.join(xv.WORK, "runs", "c11_cli")
+    os.makedirs(d, exist_ok=True)
+    picks = [o for o, (di, kind) in zip(obs, meta) if kind == "base" and o["gen_default"]["outcome"] == "ok"]
+    picks = picks[: (12 if run.tier == "quick" else 60)]
+    nproc = 6 if run.tier == "quick" else 25
+    for k, o in enumerate(picks):
+        p = os.path.join(d, "s%d.x" % k)
+        open(p, "w").write(o["text"])
+        want = open(o["gen_default"]["path"], "rb").read() + b"\n"
+        for j in range(nproc):
+            r = __import__("subprocess").run([exe, p], stdout=-1, stderr=-1)
+            run.evaluations += 1
+            if r.stdout != want:
+                run.violation("output differs between processes (or from the library's)", {"spec": o["text"], "process": j})
+                break
+    run.cov["fresh_processes_per_spec"] = nproc
+    run.cov["specs_run_in_fresh_processes"] = len(picks)
+
+
+def check_c12(run):
+    run.theorem_step(["C12"])
+    nrand = 60 if run.tier == "quick" else 600
+    decl_lists = front_specs(run, nrand, max_decls=10)
+    texts, meta = [], []
+    for di, decls in enumerate(decl_lists):
+        texts.append(specgen.print_spec(decls, random.Random(run.seed + di), rich=(di % 3 != 0)))
+        meta.append(decls)
+    # declarator / spelling matrix through the declaration model
+    for t in specgen.U32_SPELL + specgen.I32_SPELL + specgen.U64_SPELL + specgen.I64_SPELL + ["float", "double", "bool"]:
+        decls = [("struct", "sp", [(t, "x", "", False), (t, "y", "[3]", False)]), ("typedef", t, "tsp", "")]
+        texts.append(specgen.print_spec(decls, random.Random(len(texts)), rich=True))
+        meta.append(decls)
+    for sfx in ["", "[4]", "[KK]", "<>", "<5>", "<KK>"]:
+        decls = [("const", "KK", "6"), ("struct", "dd", [("opaque", "o", sfx, False), ("node_t", "n", sfx, False)] +
+                 ([("string", "s", sfx, False)] if not sfx.startswith("[") else [])), ("struct", "node_t", [("int", "v", "", False), ("node_t", "next", "", True)]),
+                 ("typedef", "node_t", "tdn", sfx), ("typedef", "opaque", "tdo", sfx)]
+        texts.append(specgen.print_spec(decls, random.Random(len(texts)), rich=True))
+        meta.append(decls)
+    decls = [("enum", "e1", [("A", "0"), ("B", "0x1F"), ("C", "0X10" if False else "16")]),
+             ("union", "uu", "e1", "which", [(["A", "B"], ("data", "int", "x")), (["C"], ("void",))], ("data", "hyper", "rest")),
+             ("union", "uv", "unsigned int", "k", [(["1", "2", "3"], ("void",)), (["4"], ("data", "string", "s"))], ("void",))]
+    texts.append(specgen.print_spec(decls, random.Random(3), rich=True))
+    meta.append(decls)
+    try:
+        obs = xv.run_front(texts, "c12")
+    except TieBroken as e:
+        run.oblige("front harness runs", False, str(e))
+        return
+    k_front(run, obs, "c12", want_k2=False)
+    for o, decls in zip(obs, meta):
+        run.case(o["text"], {"text": o["text"][:160]})
+        want = specgen.expected_ast(decls)
+        a = o["ast"]
+        if a["outcome"] != "ok":
+            run.violation("Ast::new fails on a specification of the supported subset (%s)" % a["outcome"], {"spec": o["text"], "observed": a})
+            continue
+        got = {"constants": a["constants"], "types": a["types"], "generics": a["generics"]}
+        want_n, f3 = specgen.normalize_f3(want)
+        if got == want_n:
+            if f3:
+                if any(f["id"] == "F3" for f in run.known["findings"]):
+                    run.known_hit("F3", "F3 the declared maximum of 'typedef opaque NAME<MAX>' is not in the Ast (Typedef::new maps it to ArrayType::None)")
+                else:
+                    run.violation("the bound of a typedef'd variable-length opaque is dropped", {"spec": o["text"], "typedefs": f3})
+            for kind in ("constants", "types", "generics"):
+                run.count("declared_" + kind, len(got[kind]))
+            continue
+        diff = [k for k in got if got[k] != want_n[k]]
+        run.violation("the Ast does not reflect the declarations (%s differ)" % ", ".join(diff),
+                      {"spec": o["text"], "expected": {k: want_n[k] for k in diff}, "observed": {k: got[k] for k in diff}})
+
+
+def emitted_generic(body, name):
+    """(type decl generic?, from impls generic?, size impl generic?)"""
+    ty = re.search(r'^pub (?:struct|enum) %s(<T[^\n]*|\s*\(pub|\s*\{| where)' % re.escape(name), body, re.M)
+    tyg = bool(ty and ty.group(1).startswith("<T"))
+    fr = re.findall(r'^impl TryFrom<(?:&mut )?Bytes> for %s(<Bytes>)? \{' % re.escape(name), body, re.M)
+    sz = re.findall(r'^impl WireSize for %s(<Bytes>)? \{' % re.escape(name), body, re.M)
+    return tyg, [bool(x) for x in fr], [bool(x) for x in sz]
+
+
+def check_c13(run):
+    run.theorem_step(["C13"])
+    graphs = specgen.graph_specs(1) + specgen.graph_specs(2)
+    run.cov["exhaustive_k"] = 2
+    rng = random.Random(run.seed)
+    if run.tier == "thorough":
+        graphs += specgen.graph_specs(3, limit=40000, rng=rng)
+    else:
+        graphs += specgen.graph_specs(3, limit=600, rng=rng)
+    for i in range(30 if run.tier == "quick" else 400):
+        r = random.Random(run.seed * 31 + i)
+        graphs.append(specgen.chain_spec(r, r.choice([14, 20, 40]), r.choice([12, 13, 20])))
+    texts = [specgen.print_spec(d) for d in graphs]
+    try:
+        obs = xv.run_front(texts, "c13")
+    except TieBroken as e:
+        run.oblige("front harness runs", False, str(e))
+        return
+    sample = obs if len(obs) <= 2500 else [obs[i] for i in sorted(rng.sample(range(len(obs)), 2500))]
+    k_front(run, sample, "c13")
+    for o, decls in zip(obs, graphs):
+        a = o["ast"]
+        if a["outcome"] != "ok":
+            run.violation("Ast::new fails on a dependency graph", {"spec": o["text"], "observed": a})
+            continue
+        types = dict((k, v) for k, v in specgen.expected_ast(decls)["types"])
+        want = sorted(specgen.reach(types))
+        run.case(o["text"], {"spec": o["text"][:200], "generics": a["generics"]} if len(decls) > 2 else None)
+        run.count("graphs_%d_decls" % min(len(decls), 4))
+        if a["generics"] != want:
+            run.violation("Ast::generics() = %s but opaque is reachable exactly from %s" % (a["generics"], want),
+                          {"spec": o["text"], "expected": want, "observed": a["generics"]})
+            continue
+        g = o["gen_default"]
+        if g["outcome"] != "ok":
+            continue
+        for name, t in types.items():
+            if "Enum" in t:
+                continue
+            tyg, fr, sz = emitted_generic(g["body"], name)
+            isg = name in want
+            if "Typedef" in t and t["Typedef"]["target"] == {"Ident": name}:
+                continue
+            if tyg != isg or fr != [isg, isg] or sz != [isg]:
+                run.violation("the emitted type/decoders/size of %s %s the byte-container parameter but the name is %sgeneric"
+                              % (name, "carry" if (tyg or any(fr) or any(sz)) else "lack", "" if isg else "not "),
+                              {"spec": o["text"], "name": name, "type_generic": tyg, "from_generic": fr, "size_generic": sz})
+                break
+
+
+F11_SITES = {"enumeration.rs:from", "constants.rs:new", "structure.rs:new", "union.rs:new", "from.rs:print_decode_array"}
+
+
+def hostile_texts(run):
+    r = run.rng
+    base = [
+        "enum e { A = 0xZZ };", "enum e { A = 0x80000000 };", "enum e { A = 0x };", "enum e { A = 0x0x10 };", "enum e { A = 99999999999 };",
+        "const A = 1; const A = 2;", "enum e { A = 1 }; enum f { A = 2 };", "const A = 1; enum e { A = 2 };",
+        "struct s { int int32_t; };", "struct s { int u32; };", "struct s { int bool; };", "struct s { int *hyper_; int *u64; };",
+        "union u switch (int k) { case 1: int xs<>; };", "union u switch (int k) { case 1: int xs[2]; };",
+        "union u switch (int k) { case 1: int *p; };", "union u switch (int k) { case 1: int u32; };",
+        "union u switch (int k) { default: int xs<3>; };",
+        "struct s { string s[5]; };", "typedef string ts[5];", "const N = 5; struct s { string s[N]; };",
+        "typedef int a; typedef hyper a;", "struct a { int x; }; struct a { hyper y; };",
+        "struct s { int a[X]; };", "const X = 0x10; struct s { int a[X]; };", "struct s { unknown_t a; unknown_t b<>; unknown_t *c; };",
+        "union u switch (float f) { case 1: void; };", "union u switch (string s) { default: void; };", "union u switch (opaque o) { default: void; };",
+        "union u switch (nosuch n) { case 1: void; };", "union u switch (int k) { default: void; case 1: int x; };",
+        "union u switch (int k) { default: int a; default: int b; };", "union u switch (int k) { };",
+        "union u switch (int k) { case 1: case 2: };", "union u switch (int k) { case X: void; };",
+        "struct s { };", "enum e { A = B };", "enum e { A = 1 B = 2 };", "typedef int u32;", "typedef opaque o;", "typedef opaque o<>; typedef o p<>;",
+        "struct s { opaque *o; };", "struct s { string *o; };", "struct s { int *o; };", "struct s { int type; type x; };",
+        "", " ", "/* */", "//", "// only", "struct", "struct s", "struct s {", "struct s { int a; }", "enum e { A = 1, };", "const = 1;",
+        "struct s { unsigned /*c*/ int x; };", "struct s { int/*c*/x; };", "typedef int a<4294967296>;", "typedef int a[4294967295];" if False else "typedef int a[3];",
+        "struct s { int a[0]; };", "struct s { opaque a[0]; opaque b<0>; string c<0>; };", "const A = B; const B = A; struct s { int x[A]; };",
+        "struct s { int a<>; };", "typedef uint32_t bitmap4<>;", "typedef string name<>;", "struct 1abc { int 2x; };", "const 1 = 2;",
+        "struct é { int a; };", "struct s { int a; }; \x00", "struct s\r\n{\r\nint a;\r\n};\r\n", "struct s { int a; };;",
+    ]
+    out = list(base)
+    # token-level mutations of supported-subset and of the above
+    seeds = [specgen.print_spec(specgen.random_spec(random.Random(run.seed * 13 + i), 5)) for i in range(20 if run.tier == "quick" else 150)] + base
+    toks = ["{", "}", ";", "<", ">", "[", "]", "*", "=", ",", ":", "(", ")", "case", "default", "void", "struct", "union", "enum",
+            "typedef", "const", "switch", "int", "opaque ", "string ", "unsigned ", "0x", "0", "4294967296", "x"]
+    for s in seeds:
+        for _ in range(3 if run.tier == "quick" else 12):
+            if not s:
+                continue
+            k = r.random()
+            i = r.randrange(len(s))
+            if k < 0.3:
+                m = s[:i] + s[i + 1:]
+            elif k < 0.6:
+                m = s[:i] + r.choice(toks) + s[i:]
+            elif k < 0.8:
+                j = min(len(s), i + r.randrange(1, 6))
+                m = s[:i] + s[j:]
+            else:
+                m = s[:i] + r.choice(toks) + s[i + r.randrange(1, 4):]
+            out.append(m)
+    return out
+
+
+def check_c14(run):
+    run.theorem_step(["C14"])
+    texts = hostile_texts(run) + xv.harvest_specs()
+    try:
+        obs = xv.run_front(texts, "c14")
+    except TieBroken as e:
+        run.oblige("front harness runs", False, str(e))
+        return
+    d1 = k_front(run, obs, "c14")
+    k1bad = set(n for n, _ in d1)
+    known_sites = set()
+    for f in run.known["findings"]:
+        if f["id"] == "F11":
+            known_sites = set(f["sites"])
+    for n, o in enumerate(obs):
+        a, g = o["ast"], o["gen_default"]
+        run.case(o["text"], {"text": o["text"][:100], "tree": "accepted" if o["tree"] else "rejected", "ast": a["outcome"], "generate": g["outcome"]}
+                 if a["outcome"] != "ok" or g["outcome"] != "ok" else None)
+        run.count("grammar_" + ("accepts" if o["tree"] else "rejects"))
+        run.count("generate_" + g["outcome"])
+        if o["tree"] is None:
+            if a["outcome"] != "err" or g["outcome"] != "err":
+                run.violation("a text the grammar rejects does not yield Err (Ast::new: %s, generate: %s)" % (a["outcome"], g["outcome"]), {"spec": o["text"]})
+            continue
+        for what, r in (("Ast::new", a), ("generate", g)):
+            if r["outcome"] == "panic":
+                site = r["site"]
+                if site in known_sites and n not in k1bad:
+                    run.known_hit("F11:" + site, "F11 %s panics on grammar-valid text at %s (e.g. %r)" % (what, site, o["text"][:60]))
+                else:
+                    run.violation("%s panics at %s on a text the grammar accepts" % (what, site), {"spec": o["text"], "site": site, "message": r.get("msg")})
+                break
+
+
+def check_c15(run):
+    run.theorem_step(["C15"])
+    try:
+        exe = build_cli(run)
+    except TieBroken as e:
+        run.oblige("the fastxdr binary builds from /repo", False, str(e))
+        return
+    import subprocess
+    d = os.path.join(xv.WORK, "runs", "c15")
+    __import__("shutil").rmtree(d, ignore_errors=True)
+    os.makedirs(d)
+    good = [specgen.print_spec(specgen.random_spec(random.Random(run.seed * 3 + i), 5)) for i in range(6 if run.tier == "quick" else 40)]
+    good += ["", xv.RT_SPEC, open(os.path.join(xv.REPO, "src/xdr_spec.x")).read()]
+    bad = ["struct s {", "enum e { A = 1, };", "struct s { int a[X]; };"]
+    obs = xv.run_front(good + bad, "c15_lib")
+    files = {}
+    for i, o in enumerate(obs):
+        p = os.path.join(d, "f%d.x" % i)
+        open(p, "w").write(o["text"])
+        lib = open(o["gen_default"]["path"], "rb").read() if o["gen_default"]["outcome"] == "ok" else None
+        files[p] = lib
+    missing = os.path.join(d, "does_not_exist.x")
+    files[missing] = None
+    nonutf = os.path.join(d, "nonutf8.x")
+    open(nonutf, "wb").write(b"struct s { int a; }; // \xff\xfe\n")
+    files[nonutf] = None
+    names = list(files)
+    oks = [f for f in names if files[f] is not None]
+    bads = [f for f in names if files[f] is None]
+    arglists = [[]]
+    arglists += [[f] for f in names]
+    r = run.rng
+    for _ in range(20 if run.tier == "quick" else 200):
+        n = r.choice([2, 3])
+        arglists.append([r.choice(oks) if r.random() < 0.7 else r.choice(bads) for _ in range(n)])
+    arglists += [[oks[0], oks[0]], [bads[0], oks[0]], [oks[0], bads[1], oks[1]]]
+    agree = 0
+    for args in arglists:
+        p = subprocess.run([exe] + args, stdout=subprocess.PIPE, stderr=subprocess.PIPE)
+        run.case(tuple(args), {"args": [os.path.basename(a) for a in args], "exit": p.returncode, "stdout_bytes": len(p.stdout)})
+        # the model (Cli.v), instantiated with the library's own generate
+        if not args:
+            want_out, want_ok = None, False
+        else:
+            want_out, want_ok = b"", True
+            for a in args:
+                if files[a] is None:
+                    want_ok = False
+                    break
+                want_out += files[a] + b"\n"
+        if not args:
+            ok = p.returncode != 0 and p.stdout.startswith(b"usage: ")
+        elif want_ok:
+            ok = p.returncode == 0 and p.stdout == want_out
+        else:
+            ok = p.returncode != 0 and p.stdout == want_out and len(p.stderr) > 0
+        if ok:
+            agree += 1
+        else:
+            run.violation("the CLI does not print what the library generates / wrong exit status",
+                          {"args": args, "exit": p.returncode, "stdout_len": len(p.stdout),
+                           "expected_stdout_len": None if want_out is None else len(want_out), "expected_success": want_ok,
+                           "stderr": p.stderr.decode("utf-8", "replace")[:300],
+                           "files": {a: open(a, "rb").read().decode("utf-8", "replace") for a in args if os.path.exists(a)}})
+    run.oblige("CLI correspondence: the binary built from /repo = Cli.v with the library's generate on %d argument lists" % len(arglists),
+               agree == len(arglists), "")
+    run.cov["argument_lists"] = len(arglists)
+
+
+def check_c07(run):
+    run.theorem_step(["C07"])
+    C = get_corpus(run)
+    if C is None:
+        return
+    corpus_ties(run, C, need=("k2",))
+    lookup = {o["index"]: o for o in C["obs"]}
+    failed = dict(C["compile_failed"])
+    # every specification of the corpus is in the supported subset by construction: generate must
+    # return Ok and the module must compile (the Canon visitors name every documented field/variant)
+    for i, (kind, text) in enumerate(C["specs"]):
+        o = lookup[i]
+        run.case(text, {"kind": kind, "spec": text[-200:], "generate": o["gen_default"]["outcome"]} if kind != "matrix" or i % 7 == 0 else None)
+        g = o["gen_default"]
+        if g["outcome"] == "panic":
+            run.violation("generate panics on a supported specification", {"spec": text, "site": g.get("site")})
+        elif g["outcome"] == "err":
+            run.violation("generate rejects a supported specification: %s" % g.get("msg"), {"spec": text})
+        elif i in failed:
+            run.violation("the generated module does not compile (or does not have the documented public shape)",
+                          {"spec": text, "rustc": failed[i][-2500:]})
+    # the +Clone derive line and the F8 witness are compiled separately
+    clone_and_f8(run, C)
+
+
+def clone_and_f8(run, C):
+    lookup = {o["index"]: o for o in C["obs"]}
+    idx = [i for i, (k, _) in enumerate(C["specs"]) if k in ("random", "fixed") or i % 4 == 0]
+    idx = [i for i in idx if lookup[i]["gen_clone"]["outcome"] == "ok" and lookup[i]["ast"]["outcome"] == "ok"]
+    if run.tier == "quick":
+        idx = idx[:60]
+    try:
+        exe, types, failed = xv.build_runner([(i, lookup[i]["gen_clone"]["path"], lookup[i]["ast"]) for i in idx], "c07_clone")
+    except TieBroken as e:
+        run.oblige("modules generated with #[derive(Debug, PartialEq, Clone)] compile", False, str(e))
+        return
+    run.cov["modules_compiled_with_clone_derive"] = len(idx) - len(failed)
+    for i, msg in failed:
+        run.violation("the module generated with a custom derive line does not compile", {"spec": C["specs"][i][1], "derive": xv.DERIVE_CLONE, "rustc": msg[-2500:]})
+    # F8: an enum member valued by a named constant (presented by test_enum_const_string)
+    spec = "const C1 = 1;\nenum thing { ONE = C1 };\n"
+    o = xv.run_front([spec], "c07_f8")[0]
+    try:
+        exe, types, failed = xv.build_runner([(0, o["gen_default"]["path"], o["ast"])], "c07_f8")
+    except TieBroken as e:
+        failed = [(0, str(e))]
+    run.case(spec)
+    if failed:
+        if any(f["id"] == "F8" for f in run.known["findings"]):
+            run.known_hit("F8", "F8 'const C1 = 1; enum thing { ONE = C1 };' generates a decoder that matches a u32 const "
+                                "against an i32 scrutinee and does not compile (pinned by test_enum_const_string)")
+        else:
+            run.violation("enum member valued by a constant does not compile", {"spec": spec, "rustc": failed[0][1][-2000:]})
+
+
+CHECKS = {"C07": check_c07, "C11": check_c11, "C12": check_c12, "C13": check_c13, "C14": check_c14, "C15": check_c15, "C01": check_c01, "C02": check_c02, "C03": check_c03, "C04": check_c04, "C05": check_c05,
           "C06": check_c06, "C08": check_c08, "C09": check_c09, "C10": check_c10}
 
 
